@@ -68,6 +68,19 @@ func (e aEpoch) spec(seed int64, fanout int) fixture.EpochSpec {
 		}
 		s.Blocks = append(s.Blocks, bs)
 	}
+	// the signature-prefix space has two ends: the first transactions of every generated epoch get the prefixes
+	// 0x0000 and 0xffff (first and last bucket of the sig-exists index), the third one the prefix 0xfffe
+	k := 0
+	for bi := range s.Blocks {
+		for ei := range s.Blocks[bi].Entries {
+			for ti := range s.Blocks[bi].Entries[ei].Txs {
+				if k < 3 {
+					s.Blocks[bi].Entries[ei].Txs[ti].SigPrefix = []int{65536, 1, 65535}[k]
+				}
+				k++
+			}
+		}
+	}
 	return s
 }
 
